@@ -25,10 +25,10 @@ def bool_edges(body, bb):
 
 
 def switches_on(body, local, transparent_calls=()):
-    """switch blocks whose discriminant is `local` or a move/copy/not-free copy of it; returns [(bb, negated)]"""
+    """switch blocks whose discriminant is `local` or a move/copy/negation of it — also through a field of a state
+    struct (`S.k = x; .. y = S.k`, the way an inlined async helper receives its arguments); returns [(bb, negated)]"""
     out = []
-    # forward through plain moves and `Not`
-    carried = {local: False}
+    carried = {("l", local): False}
     changed = True
     while changed:
         changed = False
@@ -36,21 +36,36 @@ def switches_on(body, local, transparent_calls=()):
             if b.get("cleanup"):
                 continue
             for st in b["stmts"]:
-                if st["s"] != "assign" or st["lhs"]["p"]:
+                if st["s"] != "assign":
                     continue
                 rv = st["rv"]
-                tgt = st["lhs"]["l"]
+                lp = st["lhs"]["p"]
+                if not lp:
+                    tgt = ("l", st["lhs"]["l"])
+                elif len(lp) == 1 and isinstance(lp[0], dict) and "f" in lp[0]:
+                    tgt = ("f", st["lhs"]["l"], lp[0]["f"])
+                else:
+                    continue
                 if tgt in carried:
                     continue
                 if rv["k"] == "use":
-                    l = op_local(rv["op"])
-                    if l in carried and not op_place(rv["op"])["p"]:
-                        carried[tgt] = carried[l]
+                    pl = op_place(rv["op"])
+                    if pl is None:
+                        continue
+                    pp = [e for e in pl["p"] if e != "*"]
+                    if not pp:
+                        src = ("l", pl["l"])
+                    elif len(pp) == 1 and isinstance(pp[0], dict) and "f" in pp[0]:
+                        src = ("f", pl["l"], pp[0]["f"])
+                    else:
+                        continue
+                    if src in carried:
+                        carried[tgt] = carried[src]
                         changed = True
                 elif rv["k"] == "unop" and rv["op"] == "Not":
                     l = op_local(rv["a"])
-                    if l in carried:
-                        carried[tgt] = not carried[l]
+                    if ("l", l) in carried and tgt[0] == "l":
+                        carried[tgt] = not carried[("l", l)]
                         changed = True
     for i, b in enumerate(body.blocks):
         if b.get("cleanup"):
@@ -58,8 +73,8 @@ def switches_on(body, local, transparent_calls=()):
         t = b["term"]
         if t["t"] == "switch":
             l = op_local(t["discr"])
-            if l in carried:
-                out.append((i, carried[l]))
+            if ("l", l) in carried:
+                out.append((i, carried[("l", l)]))
     return out
 
 
@@ -168,3 +183,173 @@ def where(body, bb):
 
 def fmt_call(cs):
     return "%s @%s:%s" % (cs.name, cs.body.file_of(cs.bb), cs.line)
+
+
+def bool_locals_from(body, pred):
+    """user-visible or temporary bool locals whose provenance satisfies pred(Slice) — used to DISCOVER flags by what
+    they mean instead of by their name"""
+    out = []
+    for l, d in enumerate(body.locals):
+        if d["ty"] != "bool" or l == 0:
+            continue
+        if not body.defs.get(l):
+            continue
+        sl = origins(body, l)
+        try:
+            if pred(sl):
+                out.append(l)
+        except Exception:
+            pass
+    return out
+
+
+def effective_callers(prog, key, _seen=None):
+    """callers of `key` as ORIGINAL functions: a caller that is a new helper (not in oracles/known_functions.json) is
+    replaced by its own callers, transitively"""
+    from .inline import is_anchored
+    _seen = _seen or set()
+    out = set()
+    for c in prog.callers_of(key):
+        base = c.split("::{closure")[0]
+        if base in _seen:
+            continue
+        if is_anchored(base):
+            out.add(base)
+        else:
+            out |= effective_callers(prog, base, _seen | {base})
+    return out
+
+
+def effective_owner(prog, body_key):
+    """the original function(s) a body belongs to: itself when original, else the original functions reaching it"""
+    from .inline import is_anchored
+    base = body_key.split("::{closure")[0]
+    if is_anchored(base):
+        return {base}
+    return effective_callers(prog, base)
+
+
+def enum_edges(body, field, variant_name):
+    """edges to REMOVE so that only paths consistent with `<x>.<field> == variant_name` remain. Tests recognised:
+    a switch on `discriminant(p)` where p reads the field (match / if let), and `PartialEq::eq/ne(p, const Variant)`.
+    field = (adt, field name). Returns (removed_edges, n_tests)."""
+    removed = []
+    tests = 0
+    for i in body.live_blocks():
+        t = body.term(i)
+        if t["t"] != "switch":
+            continue
+        dl = op_local(t["discr"])
+        src = None
+        for kind, bb, j, st in body.defs.get(dl, []):
+            if kind == "stmt" and st["s"] == "assign" and st["rv"]["k"] == "discr":
+                src = st["rv"]
+        if src is None:
+            continue
+        pl = src["place"]
+        direct = [e for e in pl["p"] if isinstance(e, dict) and "f" in e and "n" in e]
+        if direct:
+            hit = strip_generics(direct[-1].get("adt") or "") == field[0] and direct[-1].get("n") == field[1]
+        else:
+            hit = field in origins(body, pl).fields
+        if not hit:
+            continue
+        names = {int(v[0]): v[1] for v in src.get("variants", [])}
+        if variant_name not in names.values():
+            continue
+        tests += 1
+        listed = False
+        for v, tgt in t["arms"]:
+            if names.get(v) == variant_name:
+                listed = True
+            else:
+                removed.append((i, tgt))
+        if listed:
+            removed.append((i, t["otherwise"]))
+        # an arm target shared with the kept one must stay reachable
+        keep = [tgt for v, tgt in t["arms"] if names.get(v) == variant_name] or [t["otherwise"]]
+        removed = [e for e in removed if not (e[0] == i and e[1] in keep)]
+    for cs in body.calls:
+        if cs.fn not in ("core::cmp::PartialEq::eq", "core::cmp::PartialEq::ne") or len(cs.args) != 2 or cs.bb not in body.live_blocks():
+            continue
+        from .flow import arg_origins
+        sides = [arg_origins(cs, 0), arg_origins(cs, 1)]
+        fld = [k for k in (0, 1) if field in sides[k].fields]
+        if len(fld) != 1:
+            continue
+        other = sides[1 - fld[0]]
+        cv = {x.get("variant") or str(x.get("pp", "")).rsplit("::", 1)[-1] for x in other.consts}
+        cv.discard(None)
+        if len(cv) != 1:
+            continue
+        tests += 1
+        truth = (variant_name in cv) == cs.fn.endswith("::eq")
+        tr, fl = call_true_false_edges(body, cs)
+        removed += fl if truth else tr
+    return removed, tests
+
+
+def flag_switches(body, pred):
+    """bool switches whose tested value's provenance satisfies pred(Slice): ([true edges], [false edges]). A flag is found by
+    what it MEANS (where its value comes from), not by the name of the local that holds it. A `!` on the way swaps the edges."""
+    tr, fl = [], []
+    for i in sorted(body.live_blocks()):
+        t = body.term(i)
+        if t["t"] != "switch" or t.get("dty") != "bool":
+            continue
+        sl = origins(body, t["discr"])
+        try:
+            if not pred(sl):
+                continue
+        except Exception:
+            continue
+        te, fe = bool_edges(body, i)
+        nots = 0
+        # count negations on the direct move chain only
+        l = op_local(t["discr"])
+        seen = set()
+        while l is not None and l not in seen:
+            seen.add(l)
+            ds = [d for d in body.defs.get(l, []) if d[0] == "stmt" and d[3]["s"] == "assign"]
+            if len(ds) != 1:
+                break
+            rv = ds[0][3]["rv"]
+            if rv["k"] == "unop" and rv["op"] == "Not":
+                nots += 1
+                l = op_local(rv["a"])
+            elif rv["k"] == "use" and op_place(rv["op"]) is not None and not op_place(rv["op"])["p"]:
+                l = op_local(rv["op"])
+            else:
+                break
+        if nots % 2:
+            te, fe = fe, te
+        tr.append((i, te))
+        fl.append((i, fe))
+    return tr, fl
+
+
+def latch_flags(body, after_blocks):
+    """bool locals used as a one-shot latch: initialised false, set `true` in a block reachable from `after_blocks`, and
+    tested by a switch. Returns {local: (set_blocks, true_edges, false_edges)} — discovered by role, not by name."""
+    out = {}
+    after = body.reachable(list(after_blocks)) if after_blocks else set()
+    for l, d in enumerate(body.locals):
+        if d["ty"] != "bool" or l == 0:
+            continue
+        sets = [x for x in assigns_const_to(body, l, lambda c: c.get("bool") is True) if x in after]
+        inits = assigns_const_to(body, l, lambda c: c.get("bool") is False)
+        if not sets or not inits:
+            continue
+        tr, fl = [], []
+        for sbb, neg in switches_on(body, l):
+            e = bool_edges(body, sbb)
+            if e is None:
+                continue
+            t, f = e
+            if neg:
+                t, f = f, t
+            tr.append((sbb, t))
+            fl.append((sbb, f))
+        if tr:
+            out[l] = (sets, tr, fl)
+    return out
